@@ -101,14 +101,22 @@ def extract(profile="checked", repo=None):
         info["extract_s"] = round(time.time() - t0, 2)
         # keep the cache small: drop fact files of other source states for this profile
         for old in glob.glob(os.path.join(CACHE, "facts-%s-*.json" % profile)):
-            if old != out and time.time() - os.path.getmtime(old) > 3600:
+            if old != out and time.time() - os.path.getmtime(old) > 6 * 3600:
                 try:
                     os.remove(old)
                 except OSError:
                     pass
         return facts, info
-    with open(out) as fh:
-        return json.load(fh), info
+    try:
+        with open(out) as fh:
+            return json.load(fh), info
+    except (FileNotFoundError, ValueError):
+        # another process pruned (or is rewriting) the cache entry between the existence test and the read
+        try:
+            os.remove(out)
+        except OSError:
+            pass
+        return extract(profile, repo)
 
 
 if __name__ == "__main__":
